@@ -4,8 +4,13 @@ from __future__ import annotations
 
 import asyncio
 import collections.abc
+import contextvars
 import json
+import logging
 import random
+import sqlite3
+import time
+from datetime import UTC, datetime
 from typing import Any
 
 from vf import dbharness as dh
@@ -22,7 +27,9 @@ TECHNIQUE = (
     "fault injection into the writer task (seeded 'database is locked' failures of INSERTs via a wrapper around the aiosqlite "
     "connection's execute); runs of a harness UDSScanner through the real entry_point()/setup()/teardown() against an in-process ECU; "
     "systematic cancellation: every task of a clock-free multi-task history (callers and the real cyclic tester present worker on one ECU object) "
-    "is driven through a coroutine wrapper that counts its suspension points, and the history is re-run with one task cancelled at each of them"
+    "is driven through a coroutine wrapper that counts its suspension points, and the history is re-run with one task cancelled at each of them; "
+    "environment variation: a second sqlite connection holds a real write transaction on the database file while the handler is closed; "
+    "usage variation: one DBHandler object is connected, used and disconnected several times, in one event loop and in successive event loops"
 )
 LEVEL_TEXT = (
     "Exploration: generated histories of 1..25 exchanges (every request kind of the codec generators, raw requests, replies of every "
@@ -42,7 +49,14 @@ LEVEL_TEXT = (
     "the same step, also by ECU.stop_cyclic_tester_present() right after a caller's request returned, as UDSScanner.teardown does), during its write, "
     "between write and read, while it awaits the reply, between ResponsePending replies, during the insert, between requests. Rows of every run must "
     "be exactly the requests the transport saw, in that order, and none for a request that never reached the transport. "
-    "Held = every row set read back matched its wire log."
+    "A sixth (foreign write transaction) runs histories of the first family on a database that another sqlite connection write-locks (BEGIN IMMEDIATE) "
+    "from a chosen exchange on, for 3 % .. 80 % (thorough: also 115 %) of the busy timeout the handler configured for itself (read back with PRAGMA "
+    "busy_timeout; real seconds, the histories of a wave run side by side), so that two or more rows are waiting behind that transaction when "
+    "disconnect() is called after a normal end, a cancellation or a failure. A seventh (handler used again) drives ONE DBHandler object through 2..3 "
+    "sessions - connect, a history of the first family (ending normally, cancelled or failing), disconnect - where a later session runs in the same "
+    "event loop as the one before or in a fresh one (a synchronous driver calling asyncio.run() per session; connect and disconnect of a session always "
+    "in the same loop) and goes on with the scan run or starts a new one; every session is judged on the rows that came with it, and the rows of "
+    "earlier sessions must stay. Held = every row set read back matched its wire log."
 )
 LEVEL_NOTE = (
     "Trusted: scripted transport vf/dbharness.py (wire log), request generators vf/gen_uds.py, response generators vf/checks/c02.py / "
@@ -57,7 +71,11 @@ RULE = (
     "x main() scripts with logging toggles, each run twice (logging off / on from the constructor); non-trivial = logging toggled between requests. "
     "Concurrent users with cancellation: seeded histories (tasks x requests x durations x insert duration x worker on/off) x every suspension point of "
     "the chosen task (cancelled while suspended there, and - where another task's step ends the wait - by that task within that step) x, for the worker, "
-    "every caller request after which stop_cyclic_tester_present() is called; non-trivial = at least one cancellation run"
+    "every caller request after which stop_cyclic_tester_present() is called; non-trivial = at least one cancellation run. "
+    "Foreign write transaction: histories of the first family (crash points included) x exchange before which the other connection begins its write "
+    "transaction (at least two logged exchanges complete after it) x duration of that transaction as a fraction of the handler's own busy timeout "
+    "(every fraction of the list is required with several rows waiting). Handler used again: 2..3 sessions per handler object x history per session x "
+    "same / fresh event loop x same / new scan run x how the session before ended (normally, cancelled, failed: all three required)"
 )
 ASSUMPTIONS = [
     "a request() whose write was attempted counts as put on the wire; retries belong to their exchange (one row, final outcome)",
@@ -82,6 +100,14 @@ ASSUMPTIONS = [
     "decides the interleaving; the scheduling points of an insert come after DBHandler.insert_scan_result has returned (wrapper on the handler "
     "instance); PRAGMA synchronous=OFF on the handler's connection (durability across power loss is not judged); session-changing requests only in "
     "histories whose inserts take no scheduling point; the state column is compared with ECU.state as it was when the transport saw the write",
+    "foreign write transaction: the other user of the database is a second sqlite3 connection of the harness process (BEGIN IMMEDIATE issued from a helper "
+    "thread, ROLLBACK from a timer of the event loop) that touches no table; its duration is a real-time wait. If the handler's writer reported a retry "
+    "(the transaction outlasted the busy timeout) transmission order is judged on request_time, as for writer faults. Warnings are attributed to the "
+    "history in whose task context (contextvars) they were logged, since the histories of a wave share the loop",
+    "handler used again: a new ECU object and transport per session (the client's view of the ECU state starts at the default session again); the handler "
+    "object is created outside any event loop; a disconnect() that has not returned 5 s (wall clock) after the handler's writer task "
+    "(DBHandler._executor_task) ended is given up, the connection closed by force and the file judged as it is - a writer task that has ended can "
+    "never write the rows still queued; the handler's remaining sessions are then skipped and the shard stops after two such handlers",
 ]
 EXHAUSTIVE = {"quick": False, "thorough": False}
 EXHAUSTIVE_NOTE = ""
@@ -95,10 +121,14 @@ def shards(tier: str, seed: int) -> list[dict[str, Any]]:
     if tier == "quick":
         return ([{"mode": "hist", "base": f"q{seed}-{i}", "n": 260} for i in range(12)] + [{"mode": "conc", "base": f"qc{seed}-{i}", "n": 60} for i in range(2)]
                 + [{"mode": "wf", "base": f"qw{seed}-{i}", "n": 100} for i in range(4)] + [{"mode": "scan", "base": f"qs{seed}-{i}", "n": 12} for i in range(2)]
-                + [{"mode": "cc", "base": f"qx{seed}-{i}", "n": 50} for i in range(2)])
+                + [{"mode": "cc", "base": f"qx{seed}-{i}", "n": 50} for i in range(2)]
+                + [{"mode": "lock", "base": f"ql{seed}-{i}", "n": 24, "wave": 24} for i in range(1)]
+                + [{"mode": "reuse", "base": f"qr{seed}-{i}", "n": 80} for i in range(2)])
     return ([{"mode": "hist", "base": f"t{seed}-{i}", "n": 3000} for i in range(14)] + [{"mode": "conc", "base": f"tc{seed}-{i}", "n": 1000} for i in range(2)]
             + [{"mode": "wf", "base": f"tw{seed}-{i}", "n": 3000} for i in range(4)] + [{"mode": "scan", "base": f"ts{seed}-{i}", "n": 160} for i in range(2)]
-            + [{"mode": "cc", "base": f"tx{seed}-{i}", "n": 600} for i in range(4)])
+            + [{"mode": "cc", "base": f"tx{seed}-{i}", "n": 600} for i in range(4)]
+            + [{"mode": "lock", "base": f"tl{seed}-{i}", "n": 84, "wave": 28} for i in range(2)]
+            + [{"mode": "reuse", "base": f"tr{seed}-{i}", "n": 800} for i in range(2)])
 
 
 def required_reach(tier: str) -> dict[str, int]:
@@ -133,7 +163,22 @@ def required_reach(tier: str) -> dict[str, int]:
         "cancel.mid-exchange.awaiting-reply": 40 * k, "cancel.mid-exchange.pending-read": 40 * k, "cancel.during-db-insert": 40 * k,
         "cancel.between-requests": 50 * k, "cancel.worker.while-queued": 30 * k, "cancel.worker.woken-not-run": 25 * k,
         "cancel.worker.stopped-by-a-user-right-after-its-request.woken-not-run": 8 * k,
+        # another connection holds a write transaction on the database while the handler is closed
+        "foreign-lock.histories": 18 * k if tier == "quick" else 120, "#foreign-lock.hold:": len(lock_fractions(tier)),
+        "#foreign-lock.several-rows-behind.hold:": len(lock_fractions(tier)), "foreign-lock.rows-behind-the-lock": 60 * k if tier == "quick" else 400,
+        "foreign-lock.disconnect-had-to-wait-for-the-foreign-transaction": 12 * k if tier == "quick" else 80, "foreign-lock.rows-compared": 80 * k if tier == "quick" else 500,
+        "#foreign-lock.session-": 3,
+        # one handler object: connect / exchanges / disconnect, and again (same event loop, or a fresh one)
+        "reuse.handlers": 120 * k, "reuse.later-session.fresh-event-loop": 80 * k, "reuse.later-session.same-event-loop": 25 * k,
+        "#reuse.later-session.after:": 3, "reuse.later-session.continue-scan-run": 40 * k, "reuse.later-session.new-scan-run": 20 * k,
+        "reuse.later-session.rows-compared.fresh-event-loop": 300 * k, "reuse.later-session.rows-compared.same-event-loop": 80 * k,
+        "reuse.third-session": 15 * k,
     }
+
+
+def lock_fractions(tier: str) -> list[float]:
+    """how long the foreign write transaction lasts, as a fraction of the busy timeout the handler configured for itself"""
+    return [0.03, 0.12, 0.3, 0.45, 0.62, 0.8] + ([] if tier == "quick" else [1.15])
 
 
 # ---- generation ------------------------------------------------------------------------------------
@@ -398,8 +443,169 @@ class Boom(Exception):
     pass
 
 
-async def run_history(ctx: Any, spec: dict[str, Any], path: Any, catch: dh.Catcher) -> None:
-    handler = await dh.open_handler(path, "vf://c11/" + spec["hseed"])
+# ---- usage variations: a foreign write transaction while the handler is closed; one handler object used again -------------
+_HIST: contextvars.ContextVar[Any] = contextvars.ContextVar("c11_history_view", default=None)
+WRITER_ENDED_GRACE_S = 5.0  # wall clock; see close_watching_writer
+
+
+class HistView:
+    """what one history (one of several running on the same loop) sees of gallia's warnings: same interface as dh.Catcher.
+    The records are attributed through a context variable set in the history's own task (tasks it creates - the handler's
+    writer task - inherit it)."""
+
+    def __init__(self) -> None:
+        self.lost: list[str] = []
+        self.retries = 0
+
+    def take_lost(self) -> list[str]:
+        out, self.lost = self.lost, []
+        return out
+
+
+class _SplitHandler(logging.Handler):
+    def emit(self, record: logging.LogRecord) -> None:
+        view = _HIST.get()
+        if view is None:
+            return
+        try:
+            msg = record.getMessage()
+        except Exception:  # noqa: BLE001
+            msg = str(record.msg)
+        if dh.LOST_ROW_MSG in msg:
+            view.lost.append(msg)
+        elif "Retrying" in msg:
+            view.retries += 1  # the writer met an OperationalError and queued the row again (order by id may change)
+
+
+_split: list[Any] = []
+
+
+def install_split_handler() -> None:
+    if not _split:
+        dh.install_catcher()
+        _split.append(_SplitHandler(level=logging.WARNING))
+        logging.getLogger("gallia").addHandler(_split[0])
+
+
+class ForeignWriter:
+    """Another user of the same database file (a second gallia process, a database browser): its own sqlite3 connection which
+    opens a write transaction (BEGIN IMMEDIATE), keeps it for `hold_s` seconds of real time and rolls it back."""
+
+    def __init__(self, path: Any, hold_s: float) -> None:
+        self.path, self.hold_s = path, hold_s
+        self.con: sqlite3.Connection | None = None
+        self.t0: float | None = None
+        self.t1: float | None = None
+        self.timer: Any = None
+
+    async def begin(self) -> None:
+        def work() -> sqlite3.Connection:
+            con = sqlite3.connect(str(self.path), timeout=60.0, isolation_level=None, check_same_thread=False)
+            try:
+                con.execute("BEGIN IMMEDIATE")
+            except BaseException:
+                con.close()
+                raise
+            return con
+
+        self.con = await asyncio.to_thread(work)  # may have to wait a moment for the handler's writer: not on the loop's thread
+        self.t0 = time.monotonic()
+        self.timer = asyncio.get_running_loop().call_later(self.hold_s, self.end)
+
+    def end(self) -> None:
+        if self.timer is not None:
+            self.timer.cancel()
+        if self.con is not None:
+            con, self.con = self.con, None
+            try:
+                con.rollback()
+            finally:
+                con.close()
+            self.t1 = time.monotonic()
+
+
+async def busy_timeout_s(handler: Any) -> float:
+    """the busy timeout the handler configured on its own connection (read back, not assumed)"""
+    cur = await dh.guarded(handler.connection.execute("PRAGMA busy_timeout"), "connection.execute")
+    row = await cur.fetchone()
+    await cur.close()
+    ms = int(row[0]) if row else 0
+    return ms / 1000.0 if ms >= 1000 else 10.0
+
+
+async def reopen(handler: Any, spec: dict[str, Any]) -> None:
+    """the next session of a handler object that lives longer than one event loop: connect() again; the first session creates
+    the run and the scan run, a later one goes on with the scan run or starts a new one"""
+    import gallia.command  # noqa: F401
+    from gallia.command.config import GalliaBaseModel
+
+    class _Cfg(GalliaBaseModel):
+        pass
+
+    sess = spec["reuse"]
+    try:
+        await dh.guarded(handler.connect(), "connect")
+        if sess["scan_run"] == "first":
+            await dh.guarded(handler.insert_run_meta(script="vf.c11.reuse", config=_Cfg(), start_time=datetime.now(UTC).astimezone(), path=None), "insert_run_meta")
+        if sess["scan_run"] in ("first", "new"):
+            await dh.guarded(handler.insert_scan_run("vf://c11r/" + spec["hseed"]), "insert_scan_run")
+    except BaseException:
+        await dh.force_close(handler)
+        raise
+
+
+async def close_watching_writer(handler: Any) -> bool:
+    """disconnect() as entry_point's finally does.  -> True if it was given up: the handler's writer task had ended and
+    disconnect() still had not returned WRITER_ENDED_GRACE_S later (after the writer has ended, all that is left to do is commit
+    and close).  A writer task that has ended cannot write the rows that are still queued, however long one waits, so the file
+    is then closed by force and judged as it is.  With a writer that is still alive the wall-clock guard applies as elsewhere."""
+    writer = getattr(handler, "_executor_task", None)
+    t = asyncio.ensure_future(handler.disconnect())
+    t0 = time.monotonic()
+    ended_at: float | None = None
+    try:
+        while True:
+            done, _ = await asyncio.wait({t}, timeout=0.1)
+            if done:
+                t.result()
+                return False
+            now = time.monotonic()
+            if writer is not None and writer.done():
+                ended_at = now if ended_at is None else ended_at
+                if now - ended_at > WRITER_ENDED_GRACE_S:
+                    t.cancel()
+                    await asyncio.gather(t, return_exceptions=True)
+                    await dh.force_close(handler)
+                    return True
+            if now - t0 > DISCONNECT_GUARD_S:
+                raise TimeoutError(f"disconnect() did not return within {DISCONNECT_GUARD_S}s and the writer task is alive")
+    except BaseException:
+        if not t.done():
+            t.cancel()
+            await asyncio.gather(t, return_exceptions=True)
+        await dh.force_close(handler)
+        raise
+
+
+async def run_history(ctx: Any, spec: dict[str, Any], path: Any, catch: Any, handler: Any = None, st: dict[str, Any] | None = None) -> str:
+    sess: dict[str, Any] | None = spec.get("reuse")
+    lockp: dict[str, Any] | None = spec.get("lock")
+    if handler is None:
+        handler = await dh.open_handler(path, "vf://c11/" + spec["hseed"])
+    else:
+        await reopen(handler, spec)
+    fw: ForeignWriter | None = None
+    lock_obs: dict[str, Any] = {}
+
+    async def take_lock() -> None:
+        nonlocal fw
+        if lockp is None or fw is not None:
+            return
+        busy = await busy_timeout_s(handler)
+        fw = ForeignWriter(path, lockp["frac"] * busy)
+        lock_obs.update({"busy_timeout_s": busy, "hold_s": fw.hold_s, "taken_before_exchange": len(obs)})
+        await fw.begin()
+
     tr = dh.WireTransport()
     ecu = dh.make_ecu(tr, handler, spec["max_retry"])
     obs: list[Obs] = []
@@ -433,6 +639,8 @@ async def run_history(ctx: Any, spec: dict[str, Any], path: Any, catch: dh.Catch
         for i, ex in enumerate(spec["ex"]):
             if wfp is not None and i:
                 await pace(wfp["pace"][i - 1])
+            if lockp is not None and lockp["at"] == i:
+                await take_lock()
             if crash[0] == "cancel-between" and crash[1] == i:
                 parked.set()
                 await asyncio.get_running_loop().create_future()
@@ -489,10 +697,47 @@ async def run_history(ctx: Any, spec: dict[str, Any], path: Any, catch: dh.Catch
         wf.closing = True
     # entry_point's finally: the handler is closed whatever happened to the run
     # (a disconnect() that does not return within the guard raises TimeoutError: harness error -> INCONCLUSIVE, to be reproduced by hand)
-    await asyncio.wait_for(handler.disconnect(), DISCONNECT_GUARD_S)
+    if sess is not None:
+        assert st is not None
+        if await close_watching_writer(handler):
+            st["given_up"] = st.get("given_up", 0) + 1
+            spec["close"] = f"disconnect() had not returned {WRITER_ENDED_GRACE_S:.0f} s after the handler's writer task ended: closed by force"
+            ctx.reach("reuse.disconnect-given-up-after-the-writer-task-ended")
+    elif lockp is not None:
+        try:
+            await take_lock()  # a run that ended before the chosen exchange: the foreign transaction starts right before the close
+            assert fw is not None
+            t_close = time.monotonic()
+            await asyncio.wait_for(handler.disconnect(), DISCONNECT_GUARD_S)
+            lock_obs.update({"disconnect_s": time.monotonic() - t_close, "returned_before_the_foreign_transaction_ended": fw.t1 is None,
+                             "writer_retries": getattr(catch, "retries", 0)})
+        except BaseException:
+            await dh.force_close(handler)
+            raise
+        finally:
+            if fw is not None:
+                fw.end()
+        spec["lock_obs"] = lock_obs
+    else:
+        await asyncio.wait_for(handler.disconnect(), DISCONNECT_GUARD_S)
     stray = catch.take_lost()
     rows = dh.read_rows(path)
+    if sess is not None and st is not None:
+        # rows of the sessions before this one must still be there, unchanged; this session is judged on the rows that came with it
+        def ident(r: dict[str, Any]) -> tuple[Any, ...]:
+            return (r["id"], r["run"], r["request_pdu"], r["response_pdu"], r["exception"])
+
+        prev: list[dict[str, Any]] = st.get("rows", [])
+        st["rows"] = rows
+        if [ident(r) for r in rows[: len(prev)]] != [ident(r) for r in prev]:
+            ctx.violation("rows/of-an-earlier-session-changed-after-the-handler-was-reopened", "rows written before the handler was closed are missing or different after it was used again",
+                          describe(spec, None, tr.log, phase) | {"before": len(prev), "after": len(rows)})
+            last = max((r["id"] for r in prev), default=0)
+            rows = [r for r in rows if r["id"] > last]
+        else:
+            rows = rows[len(prev) :]
     judge(ctx, spec, obs, tr.log, rows, phase, scan_run, stray, wf)
+    return phase
 
 
 def outcome_class(o: Obs, wire: list[tuple[Any, ...]]) -> str:
@@ -535,6 +780,12 @@ def _describe(spec: dict[str, Any], o: Obs | None, wire: list[tuple[Any, ...]], 
     w: dict[str, Any] = {"hseed": spec["hseed"], "crash": list(spec["crash"]), "phase": phase, "max_retry": spec["max_retry"], "exchanges": len(spec["ex"])}
     if "wf" in spec:
         w["family"] = "writer-faults"
+    if "lock" in spec:
+        w["family"] = "foreign-lock"
+        w["foreign_write_transaction"] = dict(spec["lock"]) | spec.get("lock_obs", {})
+    if "reuse" in spec:
+        w["family"] = "handler-reuse"
+        w["reuse"] = dict(spec["reuse"]) | ({"close": spec["close"]} if "close" in spec else {})
     if o is not None:
         w.update({"index": o.i, "request_class": o.ex.cls, "tag": o.ex.tag, "implicit_logging": o.ex.implicit,
                   "wire": [list(e) for e in wire[o.start : o.end]][:12], "result": repr(o.result[1])[:300] if o.result and len(o.result) > 1 else (o.result[0] if o.result else None),
@@ -678,7 +929,46 @@ def judge(ctx: Any, spec: dict[str, Any], obs: list[Obs], wire: list[tuple[Any, 
                 ctx.reach("writer-fault.order-changed")
             rows = by_time
 
+    # ---- a foreign write transaction while the handler was closed / a handler object in its second or third session
+    lock_obs: dict[str, Any] | None = spec.get("lock_obs")
+    sess: dict[str, Any] | None = spec.get("reuse")
+    lock_retried = False
+    if lock_obs is not None:
+        pct = f"{round(spec['lock']['frac'] * 100)}%-of-the-handlers-busy-timeout"
+        behind = sum(1 for o in expected if o.i >= lock_obs["taken_before_exchange"])
+        ctx.reach("foreign-lock.histories")
+        ctx.reach(f"foreign-lock.session-{phase}")
+        ctx.reach(f"foreign-lock.hold:{pct}")
+        ctx.reach("foreign-lock.rows-behind-the-lock", behind)
+        if behind >= 2:
+            ctx.reach(f"foreign-lock.several-rows-behind.hold:{pct}")
+        if lock_obs["disconnect_s"] >= 0.5 * lock_obs["hold_s"]:
+            ctx.reach("foreign-lock.disconnect-had-to-wait-for-the-foreign-transaction")
+        if lock_obs["returned_before_the_foreign_transaction_ended"]:
+            ctx.reach("foreign-lock.disconnect-returned-before-the-foreign-transaction-ended")
+        if lock_obs["writer_retries"]:
+            # the lock outlasted the busy timeout: the unchanged writer queues the row again behind the others (see writer faults)
+            ctx.reach("foreign-lock.writer-had-to-retry")
+            lock_retried = True
+            by_time = sorted(rows, key=lambda r: (r["request_time"], r["id"]))
+            if [r["id"] for r in by_time] != [r["id"] for r in rows]:
+                ctx.reach("foreign-lock.order-changed")
+            rows = by_time
+    if sess is not None:
+        if sess["k"] == 0:
+            ctx.reach("reuse.handlers")
+        else:
+            ctx.reach(f"reuse.later-session.{sess['loop']}-event-loop")
+            ctx.reach(f"reuse.later-session.after:{sess['previous']}")
+            ctx.reach(f"reuse.later-session.{sess['scan_run']}-scan-run")
+            if sess["k"] >= 2:
+                ctx.reach("reuse.third-session")
+
     def missing_key(o: Obs) -> str:
+        if lock_obs is not None:
+            return f"row-missing/foreign-write-transaction-while-the-handler-is-closed/{phase}" + ("/writer-had-to-retry" if lock_retried else "")
+        if sess is not None and sess["k"] > 0:
+            return f"row-missing/handler-used-again-after-close/{sess['loop']}-event-loop/session-{phase}"
         if wf is None:
             return f"row-missing/no-warning/{phase}/request-{'returned' if o.result and o.result[0] == 'ok' else 'raised'}"
         i = expected.index(o)
@@ -705,7 +995,7 @@ def judge(ctx: Any, spec: dict[str, Any], obs: list[Obs], wire: list[tuple[Any, 
                 ctx.violation("rows/out-of-transmission-order/rows-the-writer-did-not-retry", "rows whose INSERT never failed are not in transmission order by id",
                               describe(spec, None, wire, phase) | wfw | {"ids_in_transmission_order": ids[:40]})
     elif len(got) == len(want) and sorted(got) == sorted(want):
-        if wf is not None and retried and len({r["request_time"] for r in body}) < len(body):
+        if ((wf is not None and retried) or lock_retried) and len({r["request_time"] for r in body}) < len(body):
             ctx.reach("writer-fault.order-undecidable.equal-request-times")  # harness limit: two rows carry the same send time
             return
         ctx.violation("rows/out-of-transmission-order" + ("/by-request-time-under-writer-faults" if wf is not None and retried else ""), "rows are not in transmission order",
@@ -741,6 +1031,10 @@ def judge(ctx: Any, spec: dict[str, Any], obs: list[Obs], wire: list[tuple[Any, 
     for o, row in pairs:
         ctx.evals()
         ctx.reach("rows.compared" if wf is None else "writer-fault.rows-compared")
+        if lock_obs is not None:
+            ctx.reach("foreign-lock.rows-compared")
+        if sess is not None and sess["k"] > 0:
+            ctx.reach(f"reuse.later-session.rows-compared.{sess['loop']}-event-loop")
         if row["run"] != scan_run:
             ctx.violation("row/wrong-run", "row does not belong to the scan run of this handler", describe(spec, o, wire, phase, row))
         fin: bytes | None = o.final  # type: ignore[attr-defined]
@@ -787,6 +1081,133 @@ def judge(ctx: Any, spec: dict[str, Any], obs: list[Obs], wire: list[tuple[Any, 
     if pairs and ctx.rng.random() < 0.02:
         o, row = pairs[-1]
         ctx.sample(describe(spec, o, wire, phase, row))
+
+
+# ---- a foreign write transaction while the handler is closed ---------------------------------------------
+def gen_lock_history(hseed: str, tier: str) -> dict[str, Any]:
+    """a history of the main family (all outcome classes, crash points, logging toggles) in which another connection opens a write
+    transaction before exchange `at` and keeps it for a fraction of the busy timeout the handler configured for itself; at least two
+    logged exchanges complete after that point, so their rows are waiting behind the foreign transaction when disconnect() is called"""
+    fr = lock_fractions(tier)
+    try:
+        idx = int(hseed.rsplit("/", 1)[1])
+    except (IndexError, ValueError):
+        idx = random.Random("lockfrac/" + hseed).randrange(len(fr))
+    frac = fr[idx % len(fr)]
+    end = ("none", "cancel", "raise")[(idx // len(fr)) % 3]  # every duration meets every way a run can end
+    for attempt in range(2000):
+        spec = gen_history(f"lk/{hseed}/{attempt}")
+        exs, crash = spec["ex"], spec["crash"]
+        n = len(exs)
+        if n < 3 or not crash[0].startswith(end):
+            continue
+        # exchanges [0, limit) complete
+        limit = n if crash[0] == "none" else crash[1] if crash[0] in ("cancel-between", "raise-between", "cancel-mid") else crash[1] + 1
+        rng = random.Random(f"lockat/{hseed}/{attempt}")
+        at = rng.randint(0, max(0, limit - 2))
+        if sum(1 for e in exs[at:limit] if e.implicit) < 2:
+            continue
+        spec["hseed"] = hseed
+        spec["lock"] = {"at": at, "frac": frac}
+        return spec
+    raise RuntimeError(f"no lock history for {hseed}")
+
+
+async def run_lock_waves(ctx: Any, seeds: list[str], scratch: Any, wave: int) -> None:
+    """the histories of one wave run side by side on this loop - each with its own database file, handler, transport, foreign
+    writer and its own view of the warnings -, so the real seconds the foreign transactions last are waited once per wave"""
+    install_split_handler()
+
+    async def one(n: int, hseed: str) -> None:
+        view = HistView()
+        _HIST.set(view)  # this task's context only
+        path = scratch / f"c11-lock-{n}.sqlite"
+        try:
+            await run_history(ctx, gen_lock_history(hseed, ctx.tier), path, view)
+        finally:
+            for suffix in ("", "-wal", "-shm"):
+                p = path.with_name(path.name + suffix)
+                if p.exists():
+                    p.unlink()
+
+    for b in range(0, len(seeds), wave):
+        if b and ctx.out_of_time():
+            break
+        res = await asyncio.gather(*(one(b + n, hs) for n, hs in enumerate(seeds[b : b + wave])), return_exceptions=True)
+        for r in res:
+            if isinstance(r, BaseException):
+                raise r
+
+
+# ---- one handler object: connect / exchanges / disconnect, and again ---------------------------------------
+def gen_reuse(hseed: str) -> list[dict[str, Any]]:
+    """2..3 sessions of one DBHandler object; every session is a history of the main family (so it ends normally, cancelled or
+    failing), runs in the event loop of the session before or in a fresh one, and goes on with the scan run or starts a new one"""
+    rng = random.Random("reuse/" + hseed)
+    parts = rng.choice([2, 2, 2, 3])
+    out: list[dict[str, Any]] = []
+    for k in range(parts):
+        spec = gen_history(f"{hseed}#{k}")
+        spec["reuse"] = {"of": hseed, "k": k, "sessions": parts, "loop": "first" if k == 0 else rng.choice(["fresh", "fresh", "fresh", "same"]),
+                         "scan_run": "first" if k == 0 else rng.choice(["continue", "continue", "new"]), "previous": None}
+        out.append(spec)
+    return out
+
+
+def run_reuse(ctx: Any, hseed: str, path: Any, catch: dh.Catcher, st: dict[str, Any]) -> None:
+    """synchronous driver, as a program that uses the handler from several asyncio.run() calls: connect() and disconnect() of one
+    session always happen in the same loop (what their docstrings ask for)"""
+    from gallia.db.handler import DBHandler
+
+    sessions = gen_reuse(hseed)
+    groups: list[list[dict[str, Any]]] = []
+    for spec in sessions:
+        if spec["reuse"]["loop"] == "same":
+            groups[-1].append(spec)
+        else:
+            groups.append([spec])
+    handler = DBHandler(path)  # created outside any event loop
+    st["rows"] = []
+    before = st.get("given_up", 0)
+
+    async def group(specs: list[dict[str, Any]]) -> None:
+        for spec in specs:
+            spec["reuse"]["previous"] = st.get("previous")
+            st["previous"] = await run_history(ctx, spec, path, catch, handler=handler, st=st)
+            if st.get("given_up", 0) > before:
+                return
+
+    try:
+        for g in groups:
+            asyncio.run(group(g))
+            if st.get("given_up", 0) > before:
+                break  # the handler was torn down by force: its later sessions would not say anything about the code
+    finally:
+        st.pop("previous", None)
+        if getattr(handler, "connection", None) is not None:
+            try:
+                asyncio.run(dh.force_close(handler))
+            except BaseException:  # noqa: BLE001
+                pass
+        dh.stop_leaked_connections()
+
+
+def run_reuse_shard(ctx: Any, params: dict[str, Any], only: str | None = None) -> None:
+    catch = dh.install_catcher()
+    scratch = ctx.mkscratch()
+    seeds = [only] if only else [f"{params['base']}/{i}" for i in range(params["n"])]
+    st: dict[str, Any] = {}
+    for n, hseed in enumerate(seeds):
+        if ctx.out_of_time() or st.get("given_up", 0) >= 2:
+            break  # (two handlers whose disconnect() had to be given up are witnesses enough; each costs seconds of real time)
+        path = scratch / f"c11-reuse-{n}.sqlite"
+        try:
+            run_reuse(ctx, hseed, path, catch, st)
+        finally:
+            for suffix in ("", "-wal", "-shm"):
+                p = path.with_name(path.name + suffix)
+                if p.exists():
+                    p.unlink()
 
 
 # ---- concurrent users of one client -------------------------------------------------------------------
@@ -1684,6 +2105,9 @@ async def arun(ctx: Any, params: dict[str, Any], only: str | None = None) -> Non
     if params["mode"] == "scan":
         await run_scans(ctx, seeds, scratch, catch)
         return
+    if params["mode"] == "lock":
+        await run_lock_waves(ctx, seeds, scratch, int(params.get("wave", 18)))
+        return
     for n, hseed in enumerate(seeds):
         if ctx.out_of_time():
             break
@@ -1707,11 +2131,17 @@ async def arun(ctx: Any, params: dict[str, Any], only: str | None = None) -> Non
 def run(ctx: Any, params: dict[str, Any]) -> None:
     import gallia.command  # noqa: F401
 
+    if params["mode"] == "reuse":
+        run_reuse_shard(ctx, params)
+        return
     asyncio.run(arun(ctx, params))
 
 
 def replay(ctx: Any, witness: dict[str, Any]) -> None:
     import gallia.command  # noqa: F401
 
-    mode = {"concurrent": "conc", "concurrent-cancel": "cc", "writer-faults": "wf", "scanner": "scan"}.get(witness.get("family"), "hist")
+    mode = {"concurrent": "conc", "concurrent-cancel": "cc", "writer-faults": "wf", "scanner": "scan", "foreign-lock": "lock", "handler-reuse": "reuse"}.get(witness.get("family"), "hist")
+    if mode == "reuse":
+        run_reuse_shard(ctx, {"mode": mode}, only=witness["reuse"]["of"])
+        return
     asyncio.run(arun(ctx, {"mode": mode}, only=witness["hseed"]))
